@@ -347,6 +347,10 @@ def in_terms(I, a, b, node):
     if b.kind == 'cdict':
         parts = [eq_terms(I, a, k, node) for k, _ in b.t]
         return z3.Or(*parts) if parts else z3.BoolVal(False)
+    if b.kind == 'kmap':
+        from .objects import kmap_key_term
+        kt = kmap_key_term(I, b, a, node)
+        return z3.BoolVal(False) if kt is None else z3.Select(b.t['has'], kt)
     from .objects import odict_of, odict_has
     od = odict_of(I, b)
     if od is not None:
